@@ -24,7 +24,7 @@ DIALECT_RULE = ("each evaluation is one simulated world: graph sessions building
                 "leafless orthogonal routing + planarisation), as the N-th graph of the process (id counters shifted by earlier sessions and by a generated offset), on a seeded heap whose placement policy decides the "
                 "order of the pointer-ordered sets, interleaved with other sessions; non-trivial = a reach probe fired; distinct = distinct event-log hash")
 PROPS = {
-    "C14": dict(build="plain", runs_quick=3000, budget_quick=50, runs_thorough=100000, budget_thorough=1200, rule=DIALECT_RULE, timeout_quick=60,
+    "C14": dict(build="plain", runs_quick=12000, budget_quick=50, runs_thorough=100000, budget_thorough=1200, rule=DIALECT_RULE, timeout_quick=60,
                 level_text="seeded search; most of this property's quantifier (all connected graphs, options) is workload sampling -- the simulation contributes the heap-order, id-offset and interleaving dimensions only (weak claim)",
                 assumptions=["connected graphs of 3-14 nodes (thorough: up to 40), trees / cycles / trees with extra edges / hubs", "route ends may lie up to nodePaddingScalar x IEL outside the node box (documented padding)",
                              "a std::runtime_error from doHOLA (no feasible expansion) is a refusal, counted but not judged"]),
